@@ -7,7 +7,7 @@ SPEC = {
     "model_targets": ["Compiler/CompilerCheck.vo"],
     "proof_targets": ["Base/Utf8Proofs.vo", "Compiler/AccountingProofs.vo", "Parser/MachineProofs.vo"],
     "assumptions": [
-        "panics, stack exhaustion, hangs and the rendering of diagnostics are run-time facts: they are observed per generated input in a child process (512 MiB stack thread, 60 s per case), not proved",
+        "panics, stack exhaustion, hangs and the rendering of diagnostics (Display, Debug, JSON, labels and patches) are run-time facts: they are observed per generated input in a child process (512 MiB stack thread, 30 s per case), not proved",
         "rule accounting is proved over a model whose arms (build_ast's Ok/Abort/MaxDepthReached arms, c_items' Err arm, c_rule's tolerated-error arms) are regenerated from the source; that an aborted rule carries at least one error is a hypothesis of ast_no_rule_lost, evaluated by S on every input (accepted without errors => every declared rule is built or ignored)",
         "the UTF-8 model follows the maximal-subpart rule of std::str::from_utf8; the compiler uses bstr::to_str, which K compares through the span of the reported E032 label",
         "parser totality (no engine assert fires, the interpreter is structurally recursive) is the C10 theorem lossless_balanced over Parser/Machine.v",
@@ -18,7 +18,10 @@ SPEC = {
 RULE = ("every case runs Compiler::new().add_source(bytes), Display/title/labels of every error and warning, ignored_rules(), build() "
         "in a child process; streams: corpus of past failures, grammar-generated valid rules, token-level mutations, two mutated "
         "sources back to back, deep nesting / long operator chains below the AST depth limit, token soups, random bytes, invalid UTF-8 "
-        "inserted at a random position of a small valid rule, semantically wrong rules, huge literals. Non-trivial: >= 10 bytes; "
+        "inserted at a random position / at every position / at the very end of a small valid rule, semantically wrong rules, huge literals, "
+        "syntax errors on long (> 15 bytes) tokens holding 2-4-byte characters at varied offsets, out-of-range and KB/MB-suffixed integer "
+        "literals in every literal position (xor bounds, hex jumps, base64 alphabets, ranges, percentages, indexes, meta), warnings whose "
+        "fix spans several lines. Non-trivial: >= 10 bytes; "
         "distinct by source bytes.")
 
 
@@ -27,9 +30,11 @@ def classify(case):
     if case.get("crashed"):
         return "C09:process-died"
     if case.get("timed_out"):
+        if re.search(r"\[\s*(\d{9,}|0x[0-9a-fA-F]{8,})\s*\]", case.get("source_lossy", "")):
+            return "C09:no-answer-in-time:huge-fixed-hex-jump"
         return "C09:no-answer-in-time"
     if o.get("panicked"):
-        msg = re.sub(r"\d+", "N", o["panicked"])[:120]
+        msg = re.sub(r"\b\d+\b", "N", o["panicked"])[:120]
         return "C09:panic:" + msg
     v = " ".join(case.get("violations", []))
     if "neither built nor ignored" in v:
@@ -44,7 +49,7 @@ def classify(case):
 
 
 def run_k(run, tier, seed, drv):
-    n = 500 if tier == "quick" else 8000
+    n = 800 if tier == "quick" else 8000
     nest = 150 if tier == "quick" else 1500
     info = standard_k(run, drv, "C09", "c09", ["--seed", seed, "--n", n, "--max-nest", nest],
                       "K_C09_utf8_span_and_rule_accounting", classify)
